@@ -24,5 +24,33 @@ let () = iter_lines (fun line ->
   | ["recon"; _tag; hex] ->
     let data = Stdlib.List.map z_of_int (bytes_of_hex hex) in
     Printf.printf "I %s S %s\n" (show (Vp8Spec.decode_go data)) (show (Vp8Spec.decode data))
+  | ["encrecon"; _tag; hex] ->
+    (* the encoder-side reconstruction MODEL (Vp8NoDrift.enc_frame) on the choices recovered from the
+       bytes: must be the planes the Go encoder holds after EncodeFrame *)
+    let data = Stdlib.List.map z_of_int (bytes_of_hex hex) in
+    let r = match Vp8SynParse.parse_syntax Vp8Spec.rfc_quirks data with
+      | Res.Ok s ->
+        let (_, ((w, h), p)) = Vp8NoDrift.enc_frame s in
+        Printf.sprintf "ok %d %d %s.%s.%s" (int_of_z w) (int_of_z h)
+          (digest p.Vp8Filter.pl_y) (digest p.Vp8Filter.pl_u) (digest p.Vp8Filter.pl_v)
+      | _ -> "err" in
+    Printf.printf "I %s\n" r
+  | ["reemit"; _tag; hex] ->
+    (* recover the syntax (header, modes, levels) from the encoder's bytes and emit it again through
+       the model emitter + boolean-encoder model + layout: the bytes must come out the same *)
+    let bytes = bytes_of_hex hex in
+    let data = Stdlib.List.map z_of_int bytes in
+    let r = match Vp8SynParse.reemit Vp8Spec.rfc_quirks data with
+      | Res.Ok out ->
+        let o = Stdlib.List.map int_of_z out in
+        if o = bytes then "same"
+        else begin
+          let rec first i a b = match a, b with
+            | x :: a', y :: b' -> if x = y then first (i + 1) a' b' else i
+            | _, _ -> i in
+          Printf.sprintf "differ at %d (lengths %d / %d)" (first 0 o bytes) (Stdlib.List.length o) (Stdlib.List.length bytes)
+        end
+      | _ -> "err" in
+    Printf.printf "I %s\n" r
   | [] -> ()
   | _ -> print_endline "ERR bad-line")
